@@ -10,6 +10,8 @@
      integers            Python int + - and comparison = Z ; truth value of an int = (z <> 0)
      strings             str.find / str.index / `in` = Lines.find_sub ; s[:i].count('\n') = s.count('\n', 0, i) =
                          count_nl (firstn i s) for 0 <= i ; f-string formatting of an int = Lines.show_Z, of a str = the str
+     s.partition(sub) = (text before the first occurrence | all of s, sub | '', ...) via Lines.find_sub; s.count('\n') = count_nl
+     a helper called with its own arguments sees them first, then (nested helper) the parameters of the enclosing function
      `x or y`, `x and y` return an operand (Python semantics), `not`, `is`/`is not` on None and on objects by identity
      self.<attr>         docstring_lineno, linenumber (ints; LineFromAst is an int subclass without __add__ of its own),
                          description (str), `self.module is self` (object identity; module read from Lines.o_is_module)
@@ -55,7 +57,10 @@ Inductive expr :=
 | EFind (s sub : expr)                     (* s.find(sub): -1 when absent *)
 | ECountNlPrefix (s i : expr)              (* s[:i].count('\n') / s.count('\n', 0, i) *)
 | EFormat (parts : list expr)              (* f'...': literal pieces are string constants *)
-| ECallLocal (arg : expr)                  (* the nested helper function, one argument *)
+| EPartBefore (s sub : expr)               (* s.partition(sub)[0]: the text before the first sub, all of s if absent *)
+| EPartFound (s sub : expr)                (* s.partition(sub)[1]: sub if it occurs in s, else '' *)
+| ECountNl (s : expr)                      (* s.count('\n') *)
+| ECallLocal (args : list expr)            (* the helper function (nested, or a private function of the same module) *)
 | EErrLinenum (e : expr) | EErrDescr (e : expr)   (* err.linenum(), err.descr() *)
 | EFullName (e : expr)                     (* obj.fullName() *)
 | EInErrors (name : expr) (section : expr).    (* name in system.parse_errors[section] *)
@@ -145,7 +150,7 @@ Fixpoint for_loop (x : var) (body : env -> res) (i k : nat) (e0 : env) (acc : li
 
 Section Exec.
   Variable W : world.
-  Variable call_local : value -> option value.       (* the nested helper, knot tied outside *)
+  Variable call_local : list value -> option value.  (* the helper, knot tied outside *)
   Variable loop_fuel : nat.
 
   Definition eval_attr (a : attr) (v : value) : option value :=
@@ -224,7 +229,26 @@ Section Exec.
         | Some t => Some (VStr t)
         | None => None
         end
-    | ECallLocal a => do u <- eval e a; call_local u
+    | EPartBefore s b => do u <- eval e s; do v <- eval e b;
+                         match u, v with
+                         | VStr q, VStr p => Some (VStr (match find_sub p q with Some i => firstn i q | None => q end))
+                         | _, _ => None
+                         end
+    | EPartFound s b => do u <- eval e s; do v <- eval e b;
+                        match u, v with
+                        | VStr q, VStr p => Some (VStr (match find_sub p q with Some _ => p | None => [] end))
+                        | _, _ => None
+                        end
+    | ECountNl s => do u <- eval e s; match u with VStr q => Some (VInt (count_nl q)) | _ => None end
+    | ECallLocal args =>
+        match (fix go (xs : list expr) : option (list value) :=
+                 match xs with
+                 | [] => Some []
+                 | x' :: r => do v <- eval e x'; do rest <- go r; Some (v :: rest)
+                 end) args with
+        | Some vs => call_local vs
+        | None => None
+        end
     | EErrLinenum a => do u <- eval e a;
                        match u with
                        | VErr i => do pe <- nth_error (w_errs W) i;
@@ -283,11 +307,11 @@ End Exec.
 Record fn := { f_body : stmt; f_helper : option stmt }.
 
 (* the nested helper may call itself: tie the knot on fuel *)
-Fixpoint helper_call (W : world) (loop_fuel : nat) (h : stmt) (fuel : nat) (arg : value) : option value :=
+Fixpoint helper_call (W : world) (loop_fuel : nat) (h : stmt) (fuel : nat) (args : list value) : option value :=
   match fuel with
   | O => None
   | S f =>
-    match exec {| w_self := w_self W; w_params := arg :: w_params W; w_errs := w_errs W; w_pe := w_pe W |}
+    match exec {| w_self := w_self W; w_params := args ++ w_params W; w_errs := w_errs W; w_pe := w_pe W |}
                (helper_call W loop_fuel h f) loop_fuel h env0 with
     | Some (_, _, OReturn v) => Some v
     | Some (_, _, ONormal) => Some VNone
